@@ -102,6 +102,12 @@ type arrival struct {
 type Config struct {
 	ExploreMapOrder bool // map-iteration order is a decision (radix n!, up to MaxPerm entries)
 	MaxEvents       int
+	// Reduce: only synchronisation operations and accesses to addresses in Yield are scheduling points;
+	// every other instrumented access is recorded (and race-checked) without yielding. Sound as long as
+	// Yield contains every address on which two threads conflict in some execution (ExploreReduced
+	// iterates that set to a fixpoint).
+	Reduce bool
+	Yield  map[uintptr]bool
 }
 
 // Scheduler runs one execution.
@@ -162,6 +168,13 @@ func (s *Scheduler) point(ev Event, p unsafe.Pointer) {
 		return
 	}
 	s.pins = append(s.pins, p)
+	if s.cfg.Reduce && !syncKind(ev.Kind) && !s.cfg.Yield[ev.Addr] {
+		// not a scheduling point: book the access and go on (only the running thread executes, so this is race-free)
+		ev.Thread = i
+		s.pending[i] = ev
+		s.apply(i)
+		return
+	}
 	ev.Thread = i
 	s.arrive <- arrival{thread: i, ev: ev}
 	<-s.resume[i]
@@ -225,6 +238,14 @@ func (s *Scheduler) MapOrder(n int, site int) []int {
 		}
 	}
 	return out
+}
+
+func syncKind(k string) bool {
+	switch k {
+	case "lock", "unlock", "rlock", "runlock", "atomic-load", "atomic-store", "atomic-rmw":
+		return true
+	}
+	return false
 }
 
 // ---- scheduler core ----
@@ -591,3 +612,48 @@ func (r *Recorder) Writes() []Event {
 
 // Factorial is exported for harnesses that enumerate permutation indices.
 func Factorial(n int) int { return factorial(n) }
+
+// ExploreReduced explores ALL interleavings (no preemption bound unless o.Bound >= 0) at the
+// synchronisation operations and at the accesses on which threads were seen to conflict; the set of
+// conflict addresses is learned to a fixpoint: whenever an execution reports a conflict on an address
+// that was not yet a scheduling point, exploration is repeated with it added.
+func ExploreReduced(mk func() []func(), attach func(h any), o Options, check func(x *Execution) string) (*Stats, int, int) {
+	yield := map[uintptr]bool{}
+	rounds := 0
+	total := &Stats{Exhaustive: true, Outcomes: map[string]int64{}}
+	for {
+		rounds++
+		o.Config.Reduce, o.Config.Yield = true, yield
+		grew := false
+		learned := map[uintptr]bool{}
+		st := Explore(mk, attach, o, func(x *Execution) string {
+			for _, rc := range x.Races {
+				for _, a := range []uintptr{rc.A.Addr, rc.B.Addr} {
+					if !yield[a] {
+						learned[a] = true
+					}
+				}
+			}
+			return check(x)
+		})
+		total.Schedules += st.Schedules
+		total.VisiblePoints += st.VisiblePoints
+		total.Stores += st.Stores
+		if st.MaxDecisions > total.MaxDecisions {
+			total.MaxDecisions = st.MaxDecisions
+		}
+		if !st.Exhaustive {
+			total.Exhaustive = false
+		}
+		for k, v := range st.Outcomes {
+			total.Outcomes[k] += v
+		}
+		for a := range learned {
+			yield[a] = true
+			grew = true
+		}
+		if !grew || !total.Exhaustive || rounds >= 6 {
+			return total, rounds, len(yield)
+		}
+	}
+}
